@@ -1,6 +1,7 @@
-(* The hypotheses of the C12 theorems are needed: on the faithful model, dropping any one of them
-   admits a counterexample (computed with vm_compute).  The check replays the same inputs on the
-   real code (corpus/C12), which behaves as the model does. *)
+(* The remaining hypotheses of the C12 theorems are needed: on the faithful model, dropping one of
+   them admits a counterexample (computed with vm_compute); the check replays the same inputs on the
+   real code (corpus/C12), which behaves as the model does.  Also: the seeding variant of the code
+   before the repair of finding C12-annotation-collision, for the record. *)
 Require Import List NArith Bool Lia.
 Import ListNotations.
 Require Import KV.CrossWindow.Model KV.CrossWindow.Spec KV.CrossWindow.RoundProofs.
@@ -9,52 +10,44 @@ Open Scope N_scope.
 Definition b_s := [115].  Definition b_o := [111].  Definition b_p := [112].  Definition b_q := [113].
 Definition b_a := [97].  Definition b_b := [98].  Definition b_c := [99].
 
-(* ---- (A) two components list the same annotated triple --------------------------------------------- *)
+(* ---- (A) two components list the same annotated triple (repaired in the repository) ---------------- *)
 (* window <a/> (width 10) lists (s, "b/p", o) arrived at 5; static graph <a/b/> lists (s, "p", o).
-   Both translate to (s, "a/b/p", o).  The seeding of the tag store skips u64::MAX, so the finite
-   expiry of the window listing is kept: 15, although the static listing supports the fact forever. *)
+   Both translate to (s, "a/b/p", o).  Before the repair the tag store was seeded entry by entry,
+   the last entry winning and u64::MAX being skipped, which kept the finite expiry 15 of the window
+   listing; the repaired seeding (Model.seed_tags) keeps the largest expiry, INF. *)
 Definition colA : sds :=
   mkSds [([97; 47], 10, [(b_s, [98; 47; 112], b_o, 5)])] [([97; 47; 98; 47], [(b_s, b_p, b_o)])] [].
 
-Lemma collision_refuted :
-  exists (S : sds) (now : N) (st : state),
-    (now <? INF) && no_overflow S = true /\
-    functional_b (translate S now) = false /\
-    incremental 50 [] S [] now = Some st /\
-    ~ E_state [] (translate S now) (route S) now st.
-Proof.
-  exists colA, 5.
-  eexists. split; [vm_compute; reflexivity|]. split; [vm_compute; reflexivity|]. split; [vm_compute; reflexivity|].
-  intros [H1 _].
-  match type of H1 with forall c f e, In (c, f, e) [(?c0, ?f0, ?e0)] -> _ => destruct (H1 c0 f0 e0 (or_introl eq_refl)) as (_ & _ & [_ Hmax]); specialize (Hmax INF) end.
-  assert (INF <= 15) as Hbad; [|unfold INF in Hbad; lia].
-  apply Hmax. eapply Der_base; [|apply N.le_refl]. vm_compute. right. left. reflexivity.
-Qed.
+Definition seed_tags_prefix (l : list (triple * N)) : tagstore :=
+  fold_left (fun tg (x : triple * N) => if snd x <? INF then set_tag (fst x) (snd x) tg else tg) l [].
 
-(* ---- (B) a static graph changes along the history ---------------------------------------------------- *)
-(* rule { ?x w:p ?y } => { ?x g:q ?y } ; at time 1 (a g:q b) is derived with expiry 11; at time 2 the
-   static graph <g/> itself lists (a, q, b): the carried-over finite tag 11 is kept (u64::MAX skipped). *)
-Definition rB : rule := mkRule [(V 0, C (annotate [119; 47] b_p), V 1)] [(V 0, C (annotate [103; 47] b_q), V 1)].
-Definition sB1 : sds := mkSds [([119; 47], 10, [(b_a, b_p, b_b, 1)])] [([103; 47], [])] [].
-Definition sB2 : sds := mkSds [([119; 47], 10, [(b_a, b_p, b_b, 1)])] [([103; 47], [(b_a, b_q, b_b)])] [].
+Lemma prefix_seeding_collision :
+  let l := translate colA 5 in
+  let f := (enc b_s, annotate [97; 47; 98; 47] b_p, enc b_o) in
+  In (f, 15) l /\ In (f, INF) l /\ get_tag (seed_tags_prefix l) f = 15 /\ get_tag (seed_tags l) f = INF.
+Proof. vm_compute. repeat split; auto. Qed.
 
-Lemma static_change_refuted :
-  exists (P : list rule) (S S' : sds) (now now' : N) (old st' : state),
-    wf_rules P = true /\ routed_rules (route S) P = true /\ now < now' /\ sds_ok S' now' = true /\
+(* ---- (B) a static graph loses a triple along the history ---------------------------------------------- *)
+(* static graphs may gain triples (window_consistent allows it since the repair), but a triple that
+   disappears from a static graph stays in the carried-over state with expiry u64::MAX forever *)
+Definition sB1 : sds := mkSds [([119; 47], 10, [])] [([103; 47], [(b_a, b_q, b_b)])] [].
+Definition sB2 : sds := mkSds [([119; 47], 10, [])] [([103; 47], [])] [].
+
+Lemma static_removal_refuted :
+  exists (S S' : sds) (now now' : N) (old st' : state),
+    now < now' /\ sds_ok S' now' = true /\
     window_consistent S S' now' = false /\
-    incremental 50 P S [] now = Some old /\
-    incremental 50 P S' old now' = Some st' /\
-    ~ E_state P (translate S' now') (route S') now' st'.
+    incremental 50 [] S [] now = Some old /\
+    incremental 50 [] S' old now' = Some st' /\
+    ~ E_state [] (translate S' now') (route S') now' st'.
 Proof.
-  exists [rB], sB1, sB2, 1, 2.
-  eexists. eexists. split; [vm_compute; reflexivity|]. split; [vm_compute; reflexivity|]. split; [lia|].
-  split; [vm_compute; reflexivity|]. split; [vm_compute; reflexivity|]. split; [vm_compute; reflexivity|].
-  split; [vm_compute; reflexivity|].
+  exists sB1, sB2, 1, 2.
+  eexists. eexists. split; [lia|]. split; [vm_compute; reflexivity|]. split; [vm_compute; reflexivity|].
+  split; [vm_compute; reflexivity|]. split; [vm_compute; reflexivity|].
   intros [H1 _].
-  match type of H1 with forall c f e, In (c, f, e) [?x1; (?c0, ?f0, ?e0)] -> _ =>
-    destruct (H1 c0 f0 e0 (or_intror (or_introl eq_refl))) as (_ & _ & [_ Hmax]); specialize (Hmax INF) end.
-  assert (INF <= 11) as Hbad; [|unfold INF in Hbad; lia].
-  apply Hmax. eapply Der_base; [|apply N.le_refl]. vm_compute. right. left. reflexivity.
+  match type of H1 with forall c f e, In (c, f, e) [(?c0, ?f0, ?e0)] -> _ =>
+    destruct (H1 c0 f0 e0 (or_introl eq_refl)) as (_ & _ & [Hd _]) end.
+  inversion Hd as [f e Hin _ | r sigma c Hr _ _]; [vm_compute in Hin; exact Hin | destruct Hr].
 Qed.
 
 (* ---- (C) a rule concludes a predicate that belongs to no component ------------------------------------- *)
